@@ -547,4 +547,4 @@ func c08Gen(tier string, rng *rand.Rand, emit func(string)) map[string]interface
 	}
 }
 
-func init() { register("C08", &Prop{Gen: c08Gen, Run: c08Run, CaseTimeout: 60 * time.Second}) }
+func init() { register("C08", &Prop{Gen: c08Gen, Run: c08Run, CaseTimeout: 20 * time.Second}) }
